@@ -249,3 +249,40 @@ Proof.
     rewrite Forall_forall in Hnames. apply Hnames in Hin. intros Heq. rewrite Heq in Hin. contradiction. }
   exact (parse_at_sound_l _ _ _ _ _ _ _ _ _ _ Hb' Hbody Hpa).
 Qed.
+
+(* ---------------- the text is cut into lines at newlines and nowhere else ---------------- *)
+(* str.split('\n') is the inverse of '\n'.join on lines that contain no newline: whatever other
+   characters the lines contain (form feed, vertical tab, a lone carriage return, U+0085, U+2028 ...:
+   the characters at which str.splitlines() would cut as well) *)
+Lemma split_nl_app : forall l r, ~ In 10%Z l -> split_nl (l ++ 10%Z :: r) = l :: split_nl r.
+Proof.
+  induction l as [|c l IH]; intros r H; cbn [app split_nl].
+  - reflexivity.
+  - destruct (Z.eqb_spec c 10) as [->|Hc]. { exfalso. apply H. now left. }
+    rewrite IH. reflexivity. intros Hin. apply H. now right.
+Qed.
+
+Lemma split_nl_one : forall s, ~ In 10%Z s -> split_nl s = [s].
+Proof.
+  induction s as [|c s IH]; intros H; cbn [split_nl].
+  - reflexivity.
+  - destruct (Z.eqb_spec c 10) as [->|Hc]. { exfalso. apply H. now left. }
+    rewrite IH. reflexivity. intros Hin. apply H. now right.
+Qed.
+
+Lemma split_join_l : forall ls, ls <> [] -> Forall (fun l => ~ In 10%Z l) ls -> split_nl (join_nl ls) = ls.
+Proof.
+  induction ls as [|l r IH]; intros Hne H. { contradiction. }
+  inversion H as [|? ? Hl Hr]; subst.
+  destruct r as [|l2 r2].
+  - cbn [join_nl]. now apply split_nl_one.
+  - change (join_nl (l :: l2 :: r2)) with (l ++ 10%Z :: join_nl (l2 :: r2)).
+    rewrite split_nl_app by assumption. f_equal. apply IH; [discriminate|assumption].
+Qed.
+
+Lemma text_lines_l : forall ls, ls <> [] -> Forall (fun l => ~ In 10%Z l) ls ->
+  tok_lines (IStr (join_nl ls)) = map rstrip ls.
+Proof. intros ls Hne H. cbn [tok_lines]. now rewrite split_join_l. Qed.
+
+Lemma one_line_l : forall text, ~ In 10%Z text -> tok_lines (IStr text) = [rstrip text].
+Proof. intros text H. cbn [tok_lines]. now rewrite split_nl_one. Qed.
